@@ -63,6 +63,10 @@ class Section:
         self.group_per_page = group_per_page
         self.checksum = checksum
         self.raw_lines = []
+        # placement of the start (FE) / end (FF) marker lines around the data lines; the data lines of the section are the same in
+        # every style: None = one FE..FF pair (or one per page with group_per_page), "page_start_only" = a new FE at each page change
+        # with no FF before it, "extra_start" = one more FE somewhere inside the group, "no_start" = no FE at all
+        self.marker_style = None
         self.sep = " "  # white space between an instruction word and its parameters (any run of blanks / tabs)
 
     def render(self, counter):
@@ -75,11 +79,19 @@ class Section:
             out.append("##CRC: " + getattr(self, "crc_format", "0x%08X") % self.crc)
         self.raw_lines = []
         cur_page = None
-        out.append(marker_line(counter[0], 0xFE))
-        for adr, payload in self.lines:
+        style = self.marker_style
+        extra_at = (len(self.lines) // 2) if style == "extra_start" and len(self.lines) >= 2 else None
+        if style != "no_start":
+            out.append(marker_line(counter[0], 0xFE))
+        for k, (adr, payload) in enumerate(self.lines):
             page = adr >> 16
-            if self.group_per_page and cur_page is not None and page != cur_page:
+            if style == "page_start_only":
+                if cur_page is not None and page != cur_page:
+                    out.append(marker_line(counter[0], 0xFE))
+            elif self.group_per_page and cur_page is not None and page != cur_page:
                 out.append(marker_line(counter[0], 0xFF))
+                out.append(marker_line(counter[0], 0xFE))
+            if extra_at is not None and k == extra_at:
                 out.append(marker_line(counter[0], 0xFE))
             cur_page = page
             text, raw = data_line(counter[0], self.base + page, adr & 0xFFFF, payload, self.checksum)
